@@ -426,14 +426,11 @@ func (r *Reader) FindBlockForKey(key []byte) ([]BlockLocator, error) {
 	var blocks []BlockLocator
 	seenBlocks := make(map[uint64]bool)
 
-	// First try binary search for efficiency - find the first block
-	// where the first key is >= our target key
+	// Start at the block that may hold the key: the last one whose first key
+	// is <= the target key
 	indexIter := r.indexBlock.Iterator()
-	indexIter.Seek(key)
-
-	// If the seek fails, start from beginning to check all blocks
-	if !indexIter.Valid() {
-		indexIter.SeekToFirst()
+	if !seekIndexToBlockFor(indexIter, key) {
+		return blocks, nil
 	}
 
 	// Process all potential blocks (starting from the one found by Seek)
